@@ -10,13 +10,35 @@
 #include <unistd.h>
 #include <sys/stat.h>
 #include <string>
+#include <map>
+#include <set>
+#include <poll.h>
+#include <sys/socket.h>
+#include <netinet/in.h>
+#include "../sim/rawsys.h"
 
 using namespace hx;
 
 namespace {
 
-struct Ctx { bool dry = true; int64_t k = 0; bool from = false; int64_t n = 0; bool armed = false; const char *name = ""; };
+struct Ctx {
+  bool dry = true; int64_t k = 0; bool from = false; int64_t n = 0; bool armed = false; const char *name = "";
+  uint32_t par[12] = {0};                       // scenario parameters, drawn once per run: the dry and the faulted pass see the same workload
+  std::map<std::string, std::string> ref;       // results of the fault-free pass
+  std::set<std::string> ambiguous;
+};
 Ctx *C;
+uint32_t P(int i, uint32_t n) { return n ? C->par[i] % n : 0; }
+// a result that was produced although an allocation failed somewhere must be the result of the fault-free pass
+void same(const char *tag, int idx, const std::string &val) {
+  char key[96]; snprintf(key, sizeof key, "%s#%d", tag, idx);
+  // a tag produced twice in the fault-free pass (a key assigned twice in an INI file) has no single reference value: the parser
+  // documents that it skips what it cannot store, so an earlier assignment may legitimately show through
+  if (C->dry) { if (C->ref.count(key)) C->ambiguous.insert(key); C->ref[key] = val; return; }
+  auto it = C->ref.find(key);
+  if (it != C->ref.end() && !C->ambiguous.count(key) && it->second != val)
+    violate("wrong_result_after_failed_alloc", C->name, "%s: the call succeeded with '%.80s', without the failed allocation it yields '%.80s'", key, val.c_str(), it->second.c_str());
+}
 std::string g_tmpdir;
 
 void arm() { C->armed = true; alloc::set_fail_plan(C->dry ? 0 : C->k, C->from); }
@@ -35,6 +57,14 @@ void ensure_files() {
   FILE *f = fopen((g_tmpdir + "/a.ini").c_str(), "w");
   fputs("; comment\n[first]\nname = value one\nnum=42\nflag = true\nlist = {1 2 3}\npi = 3.25\n\n[second]\nk=\"quoted # not comment\" ; trailing\nk=again\n[empty]\n[third]\nx=1\n", f);
   fclose(f);
+  f = fopen((g_tmpdir + "/b.ini").c_str(), "w");
+  for (int sct = 0; sct < 6; sct++) { fprintf(f, "[section_%d]\n", sct); for (int kk = 0; kk <= sct; kk++) fprintf(f, "key%d = value %d of section %d ; comment\nlist%d = {a%d b%d \"c d\"}\n", kk, kk, sct, kk, kk, sct); }
+  fclose(f);
+  f = fopen((g_tmpdir + "/c.ini").c_str(), "w");
+  fputs("stray = before any section\n[s]\n= no key\nnovalue\n[unterminated\nk = v\n[s]\nk2 = \"open quote\nlong = ", f);
+  for (int i = 0; i < 700; i++) fputc('a' + i % 26, f);
+  fputs("\n[t]\nz = {}\ny = { }\nx = {1}\n", f);
+  fclose(f);
   mkdir((g_tmpdir + "/dir").c_str(), 0755);
   for (const char *nm : {"/dir/one", "/dir/two", "/dir/three"}) { FILE *g = fopen((g_tmpdir + nm).c_str(), "w"); fputs("x", g); fclose(g); }
   mkdir((g_tmpdir + "/dir/sub").c_str(), 0755);
@@ -43,35 +73,54 @@ void ensure_files() {
 // ---------------------------------------------------------------- scenarios
 void s_list() {
   PList *l = nullptr;
-  for (intptr_t i = 1; i <= 3; i++) l = p_list_append(l, (ppointer)i);
+  intptr_t n0 = (intptr_t)P(0, 7);
+  for (intptr_t i = 1; i <= n0; i++) l = p_list_append(l, (ppointer)i);
+  int nops = 1 + (int)P(1, 4);
   arm();
-  PList *l2 = p_list_append(l, (ppointer)(intptr_t)4);
-  l2 = p_list_prepend(l2, (ppointer)(intptr_t)0);
+  PList *l2 = l;
+  for (int o = 0; o < nops; o++) {
+    if ((C->par[2] >> o) & 1) l2 = p_list_prepend(l2, (ppointer)(intptr_t)(100 + o)); else l2 = p_list_append(l2, (ppointer)(intptr_t)(100 + o));
+  }
+  if (P(3, 2)) l2 = p_list_reverse(l2), l2 = p_list_reverse(l2);
   disarm();
   // whatever failed, the elements that were in the list are still there, in order
   std::vector<intptr_t> v; for (PList *c = l2; c; c = c->next) v.push_back((intptr_t)c->data);
-  size_t i123 = 0; for (intptr_t x : v) if (x == (intptr_t)(i123 + 1) && i123 < 3) i123++;
-  DAMAGE(i123 == 3, "list lost elements after a failed append/prepend (%zu nodes)", v.size());
-  DAMAGE(p_list_length(l2) == v.size() && v.size() >= 3 && v.size() <= 5, "list length inconsistent");
+  intptr_t seen = 0; for (intptr_t x : v) if (x == seen + 1 && seen < n0) seen++;
+  DAMAGE(seen == n0, "list lost elements after a failed append/prepend (%zu nodes, had %ld)", v.size(), (long)n0);
+  DAMAGE(p_list_length(l2) == v.size() && v.size() >= (size_t)n0 && v.size() <= (size_t)(n0 + nops), "list length inconsistent");
+  std::set<intptr_t> uniq(v.begin(), v.end());
+  DAMAGE(uniq.size() == v.size(), "list holds one element twice after a failed append/prepend");
+  if (l2 && n0) DAMAGE(p_list_last(l2) != nullptr, "p_list_last returned NULL on a non-empty list");
   p_list_free(l2);
 }
 
 void s_hash() {
   PHashTable *t = p_hash_table_new();
-  if (t) for (intptr_t i = 1; i <= 5; i++) p_hash_table_insert(t, (ppointer)i, (ppointer)(i * 10));
+  intptr_t n0 = (intptr_t)P(0, 9);
+  intptr_t stride = P(1, 2) ? 101 : 1;                 // 101 buckets: stride 101 puts every key into one chain
+  if (t) for (intptr_t i = 1; i <= n0; i++) p_hash_table_insert(t, (ppointer)(i * stride), (ppointer)(i * 10));
   arm();
   PHashTable *t2 = p_hash_table_new();
-  if (t2) { p_hash_table_insert(t2, (ppointer)(intptr_t)7, (ppointer)(intptr_t)70); }
+  if (t2) { p_hash_table_insert(t2, (ppointer)(intptr_t)7, (ppointer)(intptr_t)70); p_hash_table_insert(t2, (ppointer)(intptr_t)108, (ppointer)(intptr_t)71); }
+  intptr_t newkey = (n0 + 1) * stride;
   if (t) {
-    p_hash_table_insert(t, (ppointer)(intptr_t)6, (ppointer)(intptr_t)60);
+    p_hash_table_insert(t, (ppointer)newkey, (ppointer)(intptr_t)60);
+    if (n0 >= 2) p_hash_table_insert(t, (ppointer)(2 * stride), (ppointer)(intptr_t)21);         // overwrite
+    if (n0 >= 3 && P(2, 2)) p_hash_table_remove(t, (ppointer)(3 * stride));
     PList *k = p_hash_table_keys(t); PList *v = p_hash_table_values(t);
-    PList *bv = p_hash_table_lookup_by_value(t, (ppointer)(intptr_t)30, nullptr);
+    PList *bv = p_hash_table_lookup_by_value(t, (ppointer)(intptr_t)10, nullptr);
+    if (bv && n0 >= 1) WRONG(p_list_length(bv) == 1 && bv->data == (ppointer)stride, "lookup_by_value returned a wrong key list");
     p_list_free(k); p_list_free(v); p_list_free(bv);
   }
   disarm();
   if (t) {
-    for (intptr_t i = 1; i <= 5; i++) DAMAGE(p_hash_table_lookup(t, (ppointer)i) == (ppointer)(i * 10), "hash table lost key %ld after a failed allocation", (long)i);
-    ppointer six = p_hash_table_lookup(t, (ppointer)(intptr_t)6);
+    for (intptr_t i = 1; i <= n0; i++) {
+      ppointer got = p_hash_table_lookup(t, (ppointer)(i * stride));
+      if (i == 3 && n0 >= 3 && P(2, 2)) { DAMAGE(got == (ppointer)(intptr_t)-1, "removed key still present"); continue; }
+      if (i == 2) { DAMAGE(got == (ppointer)(intptr_t)21 || got == (ppointer)(intptr_t)20, "overwritten key holds neither the old nor the new value"); continue; }
+      DAMAGE(got == (ppointer)(i * 10), "hash table lost key %ld after a failed allocation", (long)i);
+    }
+    ppointer six = p_hash_table_lookup(t, (ppointer)newkey);
     DAMAGE(six == (ppointer)(intptr_t)60 || six == (ppointer)(intptr_t)-1, "hash table holds a wrong value for a key whose insertion may have failed");
   }
   if (t2) p_hash_table_free(t2);
@@ -79,21 +128,39 @@ void s_hash() {
 }
 
 int cmp_int(pconstpointer a, pconstpointer b) { return (intptr_t)a < (intptr_t)b ? -1 : (intptr_t)a > (intptr_t)b ? 1 : 0; }
-pboolean count_cb(ppointer, ppointer, ppointer data) { (*(int *)data)++; return FALSE; }
+struct Walk { std::vector<intptr_t> keys, vals; };
+pboolean walk_cb(ppointer k, ppointer v, ppointer data) { ((Walk *)data)->keys.push_back((intptr_t)k); ((Walk *)data)->vals.push_back((intptr_t)v); return FALSE; }
 void s_tree(PTreeType ty) {
   PTree *t = p_tree_new(ty, cmp_int);
-  if (t) for (intptr_t i : {5, 2, 8, 1, 3}) p_tree_insert(t, (ppointer)i, (ppointer)(i * 10));
-  int before = t ? p_tree_get_nnodes(t) : 0;
+  uint32_t lcg = C->par[0] * 2654435761u + 12345u;
+  auto next = [&lcg](uint32_t n) { lcg = lcg * 1664525u + 1013904223u; return (lcg >> 16) % n; };
+  std::map<intptr_t, intptr_t> model;                  // content before the faulted calls
+  int n0 = (int)P(1, 11);
+  if (t) for (int i = 0; i < n0; i++) { intptr_t k = 1 + next(16); intptr_t v = k * 10 + i; p_tree_insert(t, (ppointer)k, (ppointer)v); model[k] = v; }
+  int nops = 1 + (int)P(2, 6);
+  std::map<intptr_t, std::pair<int, intptr_t>> last;   // last faulted operation per key: 1 insert (value), 2 remove
   arm();
   PTree *t2 = p_tree_new(ty, cmp_int);
   if (t2) { p_tree_insert(t2, (ppointer)(intptr_t)1, nullptr); p_tree_insert(t2, (ppointer)(intptr_t)2, nullptr); }
-  if (t) { p_tree_insert(t, (ppointer)(intptr_t)7, (ppointer)(intptr_t)70); p_tree_insert(t, (ppointer)(intptr_t)4, (ppointer)(intptr_t)40); p_tree_remove(t, (ppointer)(intptr_t)2); }
+  if (t) for (int o = 0; o < nops; o++) {
+    intptr_t k = 1 + next(16);
+    if (next(3) == 0) { p_tree_remove(t, (ppointer)k); last[k] = {2, 0}; }
+    else { intptr_t v = 1000 + k * 10 + o; p_tree_insert(t, (ppointer)k, (ppointer)v); last[k] = {1, v}; }
+  }
   disarm();
   if (t) {
-    int n = 0; p_tree_foreach(t, count_cb, &n);
-    DAMAGE(n == p_tree_get_nnodes(t), "tree node count %d disagrees with traversal %d", p_tree_get_nnodes(t), n);
-    DAMAGE(n >= before - 1 && n <= before + 1, "tree has %d nodes after two inserts (each may fail) and one removal of %d", n, before);
-    for (intptr_t i : {5, 8, 1, 3}) DAMAGE(p_tree_lookup(t, (ppointer)i) == (ppointer)(i * 10), "tree lost key %ld", (long)i);
+    Walk w; p_tree_foreach(t, walk_cb, &w);
+    DAMAGE((int)w.keys.size() == p_tree_get_nnodes(t), "tree node count %d disagrees with traversal %zu", p_tree_get_nnodes(t), w.keys.size());
+    for (size_t i = 1; i < w.keys.size(); i++) DAMAGE(w.keys[i - 1] < w.keys[i], "traversal is not strictly ascending after a failed allocation");
+    for (intptr_t k = 1; k <= 16; k++) {
+      ppointer got = p_tree_lookup(t, (ppointer)k);
+      auto l = last.find(k); auto m = model.find(k);
+      if (l == last.end()) {
+        if (m == model.end()) DAMAGE(got == nullptr, "key %ld appeared from nowhere", (long)k);
+        else DAMAGE(got == (ppointer)m->second, "tree lost or changed key %ld that no failed call touched", (long)k);
+      } else if (l->second.first == 2) DAMAGE(got == nullptr, "removed key %ld still present", (long)k);
+      else DAMAGE(got == (ppointer)l->second.second || got == nullptr || (m != model.end() && got == (ppointer)m->second), "key %ld holds a value nobody stored", (long)k);
+    }
     p_tree_free(t);
   }
   if (t2) p_tree_free(t2);
@@ -135,34 +202,77 @@ void s_error() {
 
 void s_hashes() {
   // objects that exist before the failing calls: their later answers must be those of the fault-free computation
-  PCryptoHash *pre[3]; static const PCryptoHashType pt[3] = {P_CRYPTO_HASH_TYPE_MD5, P_CRYPTO_HASH_TYPE_SHA1, P_CRYPTO_HASH_TYPE_SHA2_256};
-  static const char *want[3] = {"900150983cd24fb0d6963f7d28e17f72", "a9993e364706816aba3e25717850c26c9cd0d89d", "ba7816bf8f01cfea414140de5dae2223b00361a396177a9cb410ff61f20015ad"};
-  for (int i = 0; i < 3; i++) { pre[i] = p_crypto_hash_new(pt[i]); if (pre[i]) p_crypto_hash_update(pre[i], (const puchar *)"abc", 3); }
+  static const size_t lens[] = {3, 0, 1, 55, 56, 63, 64, 65, 111, 112, 119, 128, 135, 136, 143, 144, 200};
+  size_t len = lens[P(0, sizeof lens / sizeof lens[0])];
+  size_t cut = P(1, (uint32_t)len + 1);
+  std::string msg(len, 0); for (size_t i = 0; i < len; i++) msg[i] = (char)('a' + (i * 7 + len) % 26);
+  if (len == 3) msg = "abc";
+  int first = P_CRYPTO_HASH_TYPE_MD5 + (int)P(2, 11);
+  PCryptoHash *pre[3]; int pt[3];
+  for (int i = 0; i < 3; i++) {
+    pt[i] = P_CRYPTO_HASH_TYPE_MD5 + (first - P_CRYPTO_HASH_TYPE_MD5 + i * 4) % 11;
+    pre[i] = p_crypto_hash_new((PCryptoHashType)pt[i]);
+    if (pre[i]) { p_crypto_hash_update(pre[i], (const puchar *)msg.data(), cut); p_crypto_hash_update(pre[i], (const puchar *)msg.data() + cut, len - cut); }
+  }
   arm();
-  for (int i = 0; i < 3; i++) if (pre[i]) { pchar *s = p_crypto_hash_get_string(pre[i]); WRONG(!s || !strcmp(s, want[i]), "digest string is %s", s); p_free(s); }
+  for (int i = 0; i < 3; i++) if (pre[i]) { pchar *str = p_crypto_hash_get_string(pre[i]); if (str) same("pre_digest", pt[i], str); p_free(str); }
   for (int ty = P_CRYPTO_HASH_TYPE_MD5; ty <= P_CRYPTO_HASH_TYPE_GOST; ty++) {
     PCryptoHash *h = p_crypto_hash_new((PCryptoHashType)ty);
     if (!h) continue;
-    p_crypto_hash_update(h, (const puchar *)"abc", 3);
-    pchar *s = p_crypto_hash_get_string(h);
-    if (ty == P_CRYPTO_HASH_TYPE_MD5 && s) WRONG(!strcmp(s, "900150983cd24fb0d6963f7d28e17f72"), "MD5(abc) = %s", s);
-    p_free(s);
+    p_crypto_hash_update(h, (const puchar *)msg.data(), cut);
+    p_crypto_hash_update(h, (const puchar *)msg.data() + cut, len - cut);
+    pchar *str = p_crypto_hash_get_string(h);
+    if (str) same("digest", ty, str);
+    if (ty == P_CRYPTO_HASH_TYPE_MD5 && str && len == 3) WRONG(!strcmp(str, "900150983cd24fb0d6963f7d28e17f72"), "MD5(abc) = %s", str);
+    if (str) WRONG((int)strlen(str) == 2 * p_crypto_hash_get_length(h), "digest string has the wrong length");
+    p_free(str);
+    if (P(3, 2)) { p_crypto_hash_reset(h); p_crypto_hash_update(h, (const puchar *)"abc", 3); pchar *s2 = p_crypto_hash_get_string(h); if (s2) same("digest_after_reset", ty, s2); p_free(s2); }
     p_crypto_hash_free(h);
   }
   disarm();
   for (int i = 0; i < 3; i++) if (pre[i]) {
-    pchar *s = p_crypto_hash_get_string(pre[i]);
-    DAMAGE(s && !strcmp(s, want[i]), "a hash object that existed before a failed p_crypto_hash_get_string now yields %s instead of %s", s ? s : "(null)", want[i]);
-    p_free(s);
+    pchar *str = p_crypto_hash_get_string(pre[i]);
+    char key[64]; snprintf(key, sizeof key, "pre_digest#%d", pt[i]);
+    const std::string &want = C->ref[key];
+    DAMAGE(str && (C->dry || want == str), "a hash object that existed before a failed p_crypto_hash_get_string now yields %s instead of %s", str ? str : "(null)", want.c_str());
+    p_free(str);
     puchar dg[64]; psize dl = sizeof dg; p_crypto_hash_get_digest(pre[i], dg, &dl);
     DAMAGE(dl == (psize)p_crypto_hash_get_length(pre[i]), "digest length changed");
     p_crypto_hash_free(pre[i]);
   }
 }
 
+void ini_queries(PIniFile *f, const char *tag) {
+  PList *secs = p_ini_file_sections(f);
+  int si = 0;
+  for (PList *c = secs; c; c = c->next, si++) {
+    const char *sec = (const char *)c->data;
+    PList *keys = p_ini_file_keys(f, sec);
+    int ki = 0;
+    for (PList *kc = keys; kc; kc = kc->next, ki++) {
+      const char *key = (const char *)kc->data;
+      WRONG(p_ini_file_is_key_exists(f, sec, key), "a listed key does not exist");
+      pchar *v = p_ini_file_parameter_string(f, sec, key, nullptr);
+      if (v) { std::string t = std::string(tag) + ":" + sec + ":" + key; same(t.c_str(), 0, v); }
+      p_free(v);
+      if (si < 2 && ki < 2) {
+        PList *lst = p_ini_file_parameter_list(f, sec, key);
+        for (PList *lc = lst; lc; lc = lc->next) p_free(lc->data);
+        p_list_free(lst);
+        (void)p_ini_file_parameter_int(f, sec, key, -1); (void)p_ini_file_parameter_double(f, sec, key, 0.5); (void)p_ini_file_parameter_boolean(f, sec, key, FALSE);
+      }
+    }
+    for (PList *kc = keys; kc; kc = kc->next) p_free(kc->data);
+    p_list_free(keys);
+  }
+  for (PList *c = secs; c; c = c->next) p_free(c->data);
+  p_list_free(secs);
+}
 void s_ini() {
   ensure_files();
-  std::string path = g_tmpdir + "/a.ini";
+  static const char *files[] = {"/a.ini", "/b.ini", "/c.ini"};
+  int fi = (int)P(0, 3);
+  std::string path = g_tmpdir + files[fi];
   PIniFile *pre = p_ini_file_new(path.c_str());
   if (pre && !p_ini_file_parse(pre, nullptr)) { p_ini_file_free(pre); pre = nullptr; }
   arm();
@@ -172,36 +282,30 @@ void s_ini() {
     pboolean ok = p_ini_file_parse(f, &e);
     if (e) p_error_free(e);
     if (ok) {
-      PList *secs = p_ini_file_sections(f);
-      for (PList *c = secs; c; c = c->next) p_free(c->data);
-      p_list_free(secs);
-      PList *keys = p_ini_file_keys(f, "first");
-      for (PList *c = keys; c; c = c->next) p_free(c->data);
-      p_list_free(keys);
-      pchar *v = p_ini_file_parameter_string(f, "first", "name", "dflt");
-      WRONG(!v || !strcmp(v, "value one") || !strcmp(v, "dflt"), "parameter_string returned '%s'", v);
-      p_free(v);
-      pint num = p_ini_file_parameter_int(f, "first", "num", -1);
-      WRONG(num == 42 || num == -1, "parameter_int returned %d", num);
-      (void)p_ini_file_parameter_double(f, "first", "pi", 0.0);
-      (void)p_ini_file_parameter_boolean(f, "first", "flag", FALSE);
-      PList *lst = p_ini_file_parameter_list(f, "first", "list");
-      for (PList *c = lst; c; c = c->next) p_free(c->data);
-      p_list_free(lst);
+      ini_queries(f, files[fi]);
+      if (fi == 0) {
+        pchar *v = p_ini_file_parameter_string(f, "first", "name", "dflt");
+        WRONG(!v || !strcmp(v, "value one") || !strcmp(v, "dflt"), "parameter_string returned '%s'", v);
+        p_free(v);
+        pint num = p_ini_file_parameter_int(f, "first", "num", -1);
+        WRONG(num == 42 || num == -1, "parameter_int returned %d", num);
+      }
     }
     p_ini_file_free(f);
   }
-  if (pre) {   // queries on an object that existed before
-    PList *keys = p_ini_file_keys(pre, "second");
-    for (PList *c = keys; c; c = c->next) p_free(c->data);
-    p_list_free(keys);
-    pchar *v = p_ini_file_parameter_string(pre, "second", "k", nullptr);
-    p_free(v);
-  }
+  if (pre) ini_queries(pre, "pre");     // queries on an object that existed before
   disarm();
   if (pre) {
-    DAMAGE(p_ini_file_is_key_exists(pre, "first", "num") && p_ini_file_is_key_exists(pre, "third", "x"), "parsed INI object lost keys");
-    DAMAGE(p_ini_file_parameter_int(pre, "first", "num", -1) == 42, "parsed INI object returns a wrong value");
+    if (fi == 0) {
+      DAMAGE(p_ini_file_is_key_exists(pre, "first", "num") && p_ini_file_is_key_exists(pre, "third", "x"), "parsed INI object lost keys");
+      DAMAGE(p_ini_file_parameter_int(pre, "first", "num", -1) == 42, "parsed INI object returns a wrong value");
+    }
+    if (fi == 1) {
+      DAMAGE(p_ini_file_is_key_exists(pre, "section_5", "key5") && p_ini_file_is_key_exists(pre, "section_0", "list0"), "parsed INI object lost keys");
+      pchar *v = p_ini_file_parameter_string(pre, "section_3", "key2", nullptr);
+      DAMAGE(v && !strcmp(v, "value 2 of section 3"), "parsed INI object returns '%s'", v ? v : "(null)");
+      p_free(v);
+    }
     p_ini_file_free(pre);
   }
 }
@@ -253,19 +357,18 @@ void s_sockaddr() {
   p_socket_address_free(a); p_socket_address_free(b); p_socket_address_free(c); p_socket_address_free(d);
 }
 
-void s_socket() {
-  kern::set_net_defaults(65536, 65536, false);
+void s_socket_tcp(PSocketFamily fam) {
   arm();
   PError *e = nullptr;
-  PSocket *srv = p_socket_new(P_SOCKET_FAMILY_INET, P_SOCKET_TYPE_STREAM, P_SOCKET_PROTOCOL_TCP, &e);
+  PSocket *srv = p_socket_new(fam, P_SOCKET_TYPE_STREAM, P_SOCKET_PROTOCOL_TCP, &e);
   if (e) { p_error_free(e); e = nullptr; }
   PSocket *cli = nullptr, *acc = nullptr;
   if (srv) {
-    PSocketAddress *a = p_socket_address_new_loopback(P_SOCKET_FAMILY_INET, 0);
+    PSocketAddress *a = p_socket_address_new_loopback(fam, 0);
     if (a && p_socket_bind(srv, a, TRUE, &e) && p_socket_listen(srv, &e)) {
       PSocketAddress *la = p_socket_get_local_address(srv, &e);
       if (la) {
-        cli = p_socket_new(P_SOCKET_FAMILY_INET, P_SOCKET_TYPE_STREAM, P_SOCKET_PROTOCOL_TCP, &e);
+        cli = p_socket_new(fam, P_SOCKET_TYPE_STREAM, P_SOCKET_PROTOCOL_TCP, &e);
         if (cli) {
           p_socket_set_timeout(cli, 1000);
           if (p_socket_connect(cli, la, &e)) {
@@ -275,7 +378,7 @@ void s_socket() {
               PSocketAddress *ra = p_socket_get_remote_address(acc, &e);
               if (ra) p_socket_address_free(ra);
               char b[8];
-              if (p_socket_send(cli, "ping", 4, &e) == 4) { p_socket_set_timeout(acc, 1000); PSocketAddress *from = nullptr; pssize r = p_socket_receive_from(acc, &from, b, sizeof b, &e); WRONG(r == 4 || r < 0, "received %zd bytes", (ssize_t)r); if (from) p_socket_address_free(from); }
+              if (p_socket_send(cli, "ping", 4, &e) == 4) { p_socket_set_timeout(acc, 1000); PSocketAddress *from = nullptr; pssize r = p_socket_receive_from(acc, &from, b, sizeof b, &e); WRONG(r == 4 || r < 0, "received %zd bytes", (ssize_t)r); if (r == 4) WRONG(!memcmp(b, "ping", 4), "received wrong bytes"); if (from) p_socket_address_free(from); }
             }
           }
         }
@@ -290,6 +393,63 @@ void s_socket() {
   if (acc) p_socket_free(acc);
   if (cli) p_socket_free(cli);
   if (srv) p_socket_free(srv);
+}
+void s_socket_udp(PSocketFamily fam) {
+  arm();
+  PError *e = nullptr;
+  PSocket *a = p_socket_new(fam, P_SOCKET_TYPE_DATAGRAM, P_SOCKET_PROTOCOL_UDP, &e);
+  if (e) { p_error_free(e); e = nullptr; }
+  PSocket *b = p_socket_new(fam, P_SOCKET_TYPE_DATAGRAM, P_SOCKET_PROTOCOL_UDP, &e);
+  if (e) { p_error_free(e); e = nullptr; }
+  if (a && b) {
+    PSocketAddress *any = p_socket_address_new_loopback(fam, 0);
+    if (any && p_socket_bind(a, any, FALSE, &e) && p_socket_bind(b, any, FALSE, &e)) {
+      PSocketAddress *la = p_socket_get_local_address(a, &e), *lb = p_socket_get_local_address(b, &e);
+      if (la && lb) {
+        p_socket_set_timeout(a, 1000);
+        if (p_socket_send_to(b, la, "datagram", 8, &e) == 8) {
+          char buf[16]; PSocketAddress *from = nullptr;
+          pssize r = p_socket_receive_from(a, &from, buf, sizeof buf, &e);
+          WRONG(r == 8 || r < 0, "received %zd bytes of an 8 byte datagram", (ssize_t)r);
+          if (r == 8) WRONG(!memcmp(buf, "datagram", 8), "received wrong bytes");
+          // the source address is an allocation of its own: it may be missing, it may not be wrong
+          if (from) { WRONG(p_socket_address_get_port(from) == p_socket_address_get_port(lb), "receive_from reports a wrong source port"); p_socket_address_free(from); }
+        }
+        if (p_socket_connect(b, la, &e)) { PSocketAddress *ra = p_socket_get_remote_address(b, &e); if (ra) { WRONG(p_socket_address_get_port(ra) == p_socket_address_get_port(la), "remote address has a wrong port"); p_socket_address_free(ra); } }
+      }
+      if (la) p_socket_address_free(la);
+      if (lb) p_socket_address_free(lb);
+    }
+    if (any) p_socket_address_free(any);
+    if (e) { p_error_free(e); e = nullptr; }
+  }
+  disarm();
+  if (e) p_error_free(e);
+  if (a) p_socket_free(a);
+  if (b) p_socket_free(b);
+}
+void s_socket_from_fd(PSocketFamily fam) {
+  // a descriptor the caller owns: a failed p_socket_new_from_fd leaves it open and usable, a successful one takes it over
+  int af = fam == P_SOCKET_FAMILY_INET ? AF_INET : AF_INET6;
+  int fd; { kern::RawScope raw; fd = simk_socket(af, P(2, 2) ? SOCK_STREAM : SOCK_DGRAM, 0); }
+  if (fd < 0) infra_error("raw socket() failed");
+  uint64_t closes0 = kern::closes_total();
+  arm();
+  PError *e = nullptr;
+  PSocket *sk = p_socket_new_from_fd(fd, &e);
+  if (e) { p_error_free(e); e = nullptr; }
+  if (sk) { WRONG(p_socket_get_fd(sk) == fd, "socket made from descriptor %d reports descriptor %d", fd, p_socket_get_fd(sk)); WRONG(p_socket_get_family(sk) == fam, "socket made from a descriptor reports a wrong family"); }
+  disarm();
+  if (!sk) {
+    if (kern::closes_total() != closes0) violate("existing_object_damaged", C->name, "a failed p_socket_new_from_fd closed the caller's descriptor");
+    kern::RawScope raw; simk_close(fd);
+  } else p_socket_free(sk);
+  if (kern::bad_closes()) violate("existing_object_damaged", C->name, "close() hit a descriptor that was not open");
+}
+void s_socket() {
+  kern::set_net_defaults(65536, 65536, false);
+  PSocketFamily fam = P(1, 2) ? P_SOCKET_FAMILY_INET6 : P_SOCKET_FAMILY_INET;
+  switch (P(0, 3)) { case 0: s_socket_tcp(fam); break; case 1: s_socket_udp(fam); break; default: s_socket_from_fd(fam); }
   if (kern::fd_count(0)) violate("resource_left_after_failed_alloc", C->name, "descriptor left open after a failed allocation: %s", kern::fd_desc(0).c_str());
 }
 
@@ -335,16 +495,32 @@ void s_locks() {
     violate("resource_left_after_failed_alloc", C->name, "a native lock object was initialised but never destroyed (%d mutex, %d cond, %d rwlock)", shim::live_count(shim::K_MUTEX), shim::live_count(shim::K_COND), shim::live_count(shim::K_RWLOCK));
 }
 
-ppointer thread_fn(ppointer arg) { PUThreadKey *k = (PUThreadKey *)arg; if (k) { p_uthread_set_local(k, (ppointer)(intptr_t)5); (void)p_uthread_get_local(k); p_uthread_replace_local(k, nullptr); } (void)p_uthread_current(); return nullptr; }
+int g_tls_dtor_calls = 0;
+void tls_dtor(ppointer) { g_tls_dtor_calls++; }
+struct ThrArg { PUThreadKey *k, *kd; };
+ppointer thread_fn(ppointer arg) {
+  ThrArg *a = (ThrArg *)arg;
+  if (a->k) { p_uthread_set_local(a->k, (ppointer)(intptr_t)5); (void)p_uthread_get_local(a->k); p_uthread_replace_local(a->k, nullptr); }
+  if (a->kd) { p_uthread_set_local(a->kd, (ppointer)(intptr_t)6); p_uthread_replace_local(a->kd, (ppointer)(intptr_t)7); }
+  (void)p_uthread_current();
+  return nullptr;
+}
 void s_threads() {
+  int nthr = 1 + (int)P(0, 3);
+  bool full = P(1, 2), foreign = P(2, 2);
+  g_tls_dtor_calls = 0;
   arm();
-  PUThreadKey *k = p_uthread_local_new(nullptr);
-  PUThread *t = p_uthread_create(thread_fn, k, TRUE, "a-rather-long-thread-name");
-  if (t) { p_uthread_join(t); p_uthread_unref(t); }
-  if (k) { p_uthread_set_local(k, (ppointer)(intptr_t)1); WRONG(p_uthread_get_local(k) == (ppointer)(intptr_t)1 || p_uthread_get_local(k) == nullptr, "TLS returned a wrong value"); p_uthread_set_local(k, nullptr); }
+  ThrArg a; a.k = p_uthread_local_new(nullptr); a.kd = p_uthread_local_new(tls_dtor);
+  PUThread *t[3] = {nullptr, nullptr, nullptr};
+  for (int i = 0; i < nthr; i++)
+    t[i] = full ? p_uthread_create_full(thread_fn, &a, i != 1, P_UTHREAD_PRIORITY_NORMAL, 64 * 1024, "full") : p_uthread_create(thread_fn, &a, i != 1, "a-rather-long-thread-name");
+  Task *ft = nullptr;
+  if (foreign) { ft = spawn(0, [&a]() { PUThread *me = p_uthread_current(); if (me) { p_uthread_ref(me); p_uthread_unref(me); } if (a.k) p_uthread_set_local(a.k, (ppointer)(intptr_t)9); }); ft->is_thread = true; }
+  for (int i = 0; i < nthr; i++) if (t[i]) { if (i != 1) p_uthread_join(t[i]); p_uthread_unref(t[i]); }
+  if (a.k) { p_uthread_set_local(a.k, (ppointer)(intptr_t)1); WRONG(p_uthread_get_local(a.k) == (ppointer)(intptr_t)1 || p_uthread_get_local(a.k) == nullptr, "TLS returned a wrong value"); p_uthread_set_local(a.k, nullptr); }
+  wait_all_others();          // detached and foreign threads finish while the plan is still armed: their exit paths allocate nothing that may leak
   disarm();
-  wait_all_others();
-  p_uthread_local_free(k);
+  p_uthread_local_free(a.k); p_uthread_local_free(a.kd);
 }
 
 void s_loader() {
@@ -397,6 +573,7 @@ void root() {
   int si = (int)gen(NSCEN);
   const Scen &sc = scenarios[si];
   ctx.name = sc.name;
+  for (int i = 0; i < 6; i++) ctx.par[i] = gen(1u << 16);
   ctx.dry = true;
   run_scenario(sc);
   if (ctx.n <= 0) { probe("nomem.scenario_without_allocation"); }
@@ -404,8 +581,9 @@ void root() {
     ctx.dry = false;
     ctx.k = 1 + (int64_t)gen((uint32_t)ctx.n);
     ctx.from = gen(2);
-    describe("scenario=%s allocations=%lld fail=%lld%s", sc.name, (long long)ctx.n, (long long)ctx.k, ctx.from ? "+" : "");
+    describe("scenario=%s par=%u,%u,%u,%u allocations=%lld fail=%lld%s", sc.name, ctx.par[0], ctx.par[1], ctx.par[2], ctx.par[3], (long long)ctx.n, (long long)ctx.k, ctx.from ? "+" : "");
     order_ev(si, (int)ctx.k, ctx.from);
+    for (int i = 0; i < 4; i++) order_ev(100 + i, (int)ctx.par[i], 0);
     uint64_t f0 = alloc::failed_count();
     run_scenario(sc);
     if (alloc::failed_count() > f0) { probe("nomem.allocation_failed"); if (ctx.k >= 2) probe("alloc.failed_second_or_later_in_scenario"); }
